@@ -577,3 +577,19 @@ def clone_scripts(n):
                                 "first_op": kind, "pred": {"start": st, "size": sz}})
                     k_id += 1
     return out
+
+
+def obs_fault_build(pair, sid, k):
+    """C06: an element comparison panics part-way through ==, partial_cmp, cmp: both buffers stay valid, nothing is lost"""
+    a, b = pair['a'], pair['b']
+    n, m = a['cap'], b['cap']
+    steps = layout_vals_steps(n, a['start'], a['vals'], 0, None)
+    steps += layout_vals_steps(m, b['start'], b['vals'], 1, m if m != n else None)
+    x = {"h": 0, "h2": 1}
+    if m != n:
+        x["cap2"] = m
+    ops = ["eq", "partial_cmp", "lt"] + (["cmp"] if m == n else [])
+    op = ops[k % len(ops)]
+    steps.append(dict(x, op=op, fault={"k": "cmp", "n": 1 + (k // len(ops)) % 3}))
+    steps += [{"op": "observe", "h": 0}, dict(x, op="eq"), {"op": "push_back", "h": 0, "val": 1}, {"op": "pop_front", "h": 0}]
+    return {"id": sid, "n": n, "ty": "t", "tags": ["observers", "fault_user"], "steps": steps, "first_op": op}
